@@ -5,6 +5,7 @@ import Driver.C11
 import Driver.SqlTx
 import Driver.SqlMv
 import Driver.C13Cache
+import Driver.C12Ddl
 import Driver.C14
 import Driver.C07
 import Driver.C02
@@ -30,6 +31,7 @@ structure State where
   c13c : C13Cache.St := {}
   c12 : SqlTx.St := {}
   c12mv : SqlMv.St := {}
+  c12ddl : C12Ddl.St := {}
   c11 : C11.St := {}
   c14 : C14.St := {}
   c07 : C07.St := {}
@@ -64,6 +66,7 @@ def step (st : State) (line : String) : State × String :=
   | "c07" :: rest => let (s, o) := C07.step st.c07 rest; ({ st with c07 := s }, o)
   | "c14" :: rest => let (s, o) := C14.step st.c14 rest; ({ st with c14 := s }, o)
   | "c11" :: rest => let (s, o) := C11.step st.c11 rest; ({ st with c11 := s }, o)
+  | "c12" :: "ddl" :: rest => let (s, o) := C12Ddl.step st.c12ddl rest; ({ st with c12ddl := s }, o)
   | "c12" :: "mv" :: rest => let (s, o) := SqlMv.step st.c12mv rest; ({ st with c12mv := s }, o)
   | "c12" :: rest => let (s, o) := SqlTx.step' true st.c12 rest; ({ st with c12 := s }, o)
   | "c13c" :: rest => let (s, o) := C13Cache.step st.c13c rest; ({ st with c13c := s }, o)
